@@ -68,11 +68,14 @@ def graphs(n, max_dep):
                     yield kinds, se, frozenset(deps)
 
 
-def build_classes(kinds, se):
+def build_classes(kinds, se, deps=()):
+    """`deps`: the _depends_on edges.  Edges to EARLIER nodes are declared in the class statement (for a hybrid class: the
+    dependency given as a hybrid class where it is one, no _kernels on the declaring class); apply_deps adds the others."""
     import xobjects as xo
 
     classes = []  # the sortable class of each node
     hybrids = {}
+    _declared.clear()
     for i, k in enumerate(kinds):
         name = "N%d" % i
         if k in ("S", "H"):
@@ -83,7 +86,9 @@ def build_classes(kinds, se):
             if k == "S":
                 c = type(name, (xo.Struct,), dict(fields, _depends_on=[]))
             else:
-                h = type(name, (xo.HybridClass,), dict(_xofields=fields, _cname=name, _depends_on=[]))
+                back = sorted(j for a, j in deps if a == i and j < i)
+                h = type(name, (xo.HybridClass,), dict(_xofields=fields, _cname=name, _depends_on=[hybrids.get(j, classes[j]) for j in back]))
+                _declared.update((i, j) for j in back)
                 hybrids[i] = h
                 c = h._XoStruct
         elif k == "E":
@@ -96,6 +101,15 @@ def build_classes(kinds, se):
             c = type(name, (xo.UnionRef,), dict(_reftypes=[classes[j] for j, _ in se[i]], _depends_on=[]))
         classes.append(c)
     return classes
+
+
+_declared = set()
+
+
+def apply_deps(classes, deps):
+    for i, j in deps:
+        if (i, j) not in _declared:
+            classes[i]._depends_on.append(classes[j])
 
 
 def model(kinds, se, deps, classes):
@@ -186,12 +200,11 @@ def run_shard(shard, tier, seed):
                 continue
             gcount += 1
             try:
-                classes = build_classes(kinds, se)
+                classes = build_classes(kinds, se, deps)
             except Exception as e:
                 res.skipped["class-definition-refused:" + common.exc_failure(e)] += 1
                 continue
-            for i, j in deps:
-                classes[i]._depends_on.append(classes[j])
+            apply_deps(classes, deps)
             need = model(kinds, se, deps, classes)
             res.cases += 1
             all_names = [c.__name__ for c in classes]
@@ -340,9 +353,8 @@ def replay(case):
     kinds = tuple(case["kinds"])
     se = tuple(tuple((j, h) for j, h in e) for e in case["struct_edges"])
     deps = frozenset(tuple(d) for d in case["depends_on"])
-    classes = build_classes(kinds, se)
-    for i, j in deps:
-        classes[i]._depends_on.append(classes[j])
+    classes = build_classes(kinds, se, deps)
+    apply_deps(classes, deps)
     need = model(kinds, se, deps, classes)
     roots = case["roots"]
     try:
